@@ -60,6 +60,9 @@ type handlerLog struct {
 	failAt  int // handler error injected at this event index (-1 none)
 	failErr error
 	def     bool // call through to default handlers
+	// onPing, if set, runs inside the ping handler (an application may call
+	// connection methods from its handlers).
+	onPing func()
 }
 
 type hEvent struct {
@@ -82,6 +85,9 @@ func (h *handlerLog) install(c *websocket.Conn) {
 	defPing, defClose := c.PingHandler(), c.CloseHandler()
 	c.SetPingHandler(func(s string) error {
 		h.add(hEvent{Op: wsref.OpPing, Payload: s})
+		if h.onPing != nil {
+			h.onPing()
+		}
 		if h.failAt == len(h.Events)-1 {
 			return h.failErr
 		}
